@@ -223,7 +223,10 @@ def tblBlob (name : String) : String :=
 def sanFlags (mp : MoveProps) : String :=
   flag mp.isCapture "c" ++ flag mp.isCheck "k" ++ flag mp.isMate "m" ++ ambCh mp.amb
 
-def runOp (K : Keys) (committedKeys : String) (lite : Bool) (skipM0 : Bool) (sess : Option Session) (line : String) : Option Session × String :=
+def runOp (K : Keys) (committedKeys : String) (lite : Bool) (skipM0 : Bool) (rehash : Bool) (sess : Option Session) (line : String) : Option Session × String :=
+  -- `rehash` (corpus mode): op lines recorded under an older key table carry a stale hash field; recompute it from scratch
+  let boardOfRaw (t : String) : Option Board :=
+    (Drv.boardOfRaw t).map fun b => if rehash then { b with hash := b.calcHash K } else b
   let toks := line.splitOn " "
   let op := toks.headD ""
   let arg (i : Nat) : String := toks.getD i ""
@@ -459,7 +462,7 @@ def main (args : List String) : IO UInt32 := do
       if line.isEmpty then break
       let l := (line.trimAsciiEnd).toString
       lineno := lineno + 1
-      let (s', out) := Drv.runOp K committed lite (every > 1 && lineno % every != 0) sess l
+      let (s', out) := Drv.runOp K committed lite (every > 1 && lineno % every != 0) (rest.contains "rehash") sess l
       sess := s'
       hout.putStrLn out
     hout.flush
